@@ -251,13 +251,24 @@ def check_w3(chk, fn, states, E):
                fn.loc, fn.name)
 
 
-def poly_equal(e1, e2, atoms, bits=32):
+def poly_equal(e1, e2, atoms, bits=32, where=()):
     """Identity of two add/sub/mul/const expressions over atoms modulo 2^bits, by evaluation on a grid
     (4 points per variable: polynomials of degree <= 3 per variable over a ring are decided only
     heuristically in general, so the caller additionally requires both sides to be built from add/sub/mul)."""
     grid = (0, 1, 2, 5) if len(atoms) > 3 else (0, 1, 2, 5, 63, 64, 128, 255, 256, 1000, 65535)
     for vals in product(grid, repeat=len(atoms)):
         env = dict(zip(atoms, vals))
+        # (only assignments the path's own conditions over these atoms admit)
+        skip = False
+        for c_, t_ in where:
+            try:
+                if bool(eval_concrete(c_, env)) != bool(t_):
+                    skip = True
+                    break
+            except NoValue:
+                pass
+        if skip:
+            continue
         try:
             a = eval_concrete(e1, env) & paths.mask(bits)
             b = eval_concrete(e2, env) & paths.mask(bits)
@@ -400,7 +411,7 @@ def check_w4(chk, m, fn, wh, fmt_arg, states):
             if not is_poly(g, names):
                 chk.unknown("W4.set-num-frames", "%s %s" % (pid, f), "new value %s is not a polynomial of the old fields" % fmt(got)[:100])
                 continue
-            r = poly_equal(g, w, names)
+            r = poly_equal(g, w, names, where=[(subst(c_), t_) for c_, t_, i_ in p.conds if i_ is None or i_.op != "switch"])
             if r is None:
                 chk.unknown("W4.set-num-frames", "%s %s" % (pid, f), "not evaluable")
             else:
